@@ -135,6 +135,38 @@ pub fn exec(p: &[&str], scratch: &str) -> String {
             }
             format!("{}|{}{}", tr.join(","), bags.join(";"), note)
         }
+        "msched" => {
+            // msched mode w m W sched recs : the two minimiser output loops under a schedule
+            let d = fresh(scratch);
+            let recs = unhex_list(p[6]);
+            let inp = serialise(&recs, "fa", 0, &d, "in");
+            let out = format!("{}/out.min", d);
+            let (w, m, workers): (usize, usize, usize) = (p[2].parse().unwrap(), p[3].parse().unwrap(), p[4].parse().unwrap());
+            verif::take_log();
+            verif::set_logging(true);
+            verif::set_schedule(workers, parse_sched(p[5]));
+            if p[1] == "s2m" { misc::minimisers::seq_to_min(w, m, &inp, &out, workers); } else { misc::minimisers::bin_sequences(w, m, &inp, &out, workers); }
+            verif::clear_schedule();
+            verif::set_logging(false);
+            let log = verif::take_log();
+            let mut at: Vec<&str> = vec!["start"; workers];
+            let mut taken = 0usize;
+            let mut tr: Vec<String> = vec![];
+            for e in &log {
+                if let Ev::Sched { worker, point, .. } = e {
+                    let i = *worker;
+                    match (at[i], *point) {
+                        ("take", "exit") => tr.push(format!("{}:t-", i)),
+                        ("take", "push") | ("take", "write") | ("take", "take") => { tr.push(format!("{}:t{}", i, taken)); taken += 1; }
+                        ("push", _) | ("write", _) => tr.push(format!("{}:p", i)),
+                        _ => {}
+                    }
+                    at[i] = if *point == "exit" { "start" } else { point };
+                }
+            }
+            let text = String::from_utf8_lossy(&std::fs::read(&out).unwrap_or_default()).to_string();
+            format!("{}|{}", tr.join(","), crate::fileops::canon_min(p[1] == "s2m", &text))
+        }
         "hooks" => {
             // hooks <inner file-level op ...>: run the inner op with the event log on; every logged unchecked index
             // must lie inside its buffer, every mapped write inside the mapping, and the mapped rows must tile the
